@@ -27,6 +27,7 @@ import (
 	"github.com/cosmos/cosmos-sdk/crypto/keys/secp256k1"
 	"github.com/cosmos/cosmos-sdk/server"
 	simtestutil "github.com/cosmos/cosmos-sdk/testutil/sims"
+	"github.com/cosmos/cosmos-sdk/codec"
 	sdk "github.com/cosmos/cosmos-sdk/types"
 	authtypes "github.com/cosmos/cosmos-sdk/x/auth/types"
 	banktypes "github.com/cosmos/cosmos-sdk/x/bank/types"
@@ -716,6 +717,58 @@ func (c *Case) RawStore(storeName string, prefix []byte) (keys, vals [][]byte) {
 		vals = append(vals, append([]byte{}, it.Value()...))
 	}
 	return
+}
+
+// Reimport emulates a restart of one module from its own exported genesis on the case's branch: the module's
+// genesis is exported, its store is wiped (all of it, or only the given key prefixes when the module documents
+// that the rest is not part of its genesis) and the exported genesis is imported again through the module's
+// InitGenesis.  Bank balances and the other modules' stores stay as they are, as they would when every module is
+// exported and imported together.  A panic or error of export/import is returned (err != nil, stage says where);
+// the exported JSON is returned for reports.
+func (c *Case) Reimport(moduleName string, wipePrefixes ...[]byte) (exported json.RawMessage, stage string, err error) {
+	var key *storetypes.KVStoreKey
+	for _, k := range c.E.App.GetStoreKeys() {
+		if kv, ok := k.(*storetypes.KVStoreKey); ok && kv.Name() == moduleName {
+			key = kv
+		}
+	}
+	if key == nil {
+		panic("no store " + moduleName)
+	}
+	mod, ok := c.E.App.ModuleManager.Modules[moduleName].(interface {
+		InitGenesis(sdk.Context, codec.JSONCodec, json.RawMessage) []abci.ValidatorUpdate
+		ExportGenesis(sdk.Context, codec.JSONCodec) json.RawMessage
+	})
+	if !ok {
+		panic("module " + moduleName + " has no genesis methods of the expected shape")
+	}
+	stage = "export"
+	defer func() {
+		if p := recover(); p != nil {
+			err = fmt.Errorf("%s of module %s panicked: %v", stage, moduleName, p)
+		}
+	}()
+	cdc := c.E.App.AppCodec()
+	exported = mod.ExportGenesis(c.Ctx, cdc)
+	stage = "wipe"
+	st := c.Ctx.KVStore(key)
+	if len(wipePrefixes) == 0 {
+		wipePrefixes = [][]byte{nil}
+	}
+	for _, pre := range wipePrefixes {
+		var keys [][]byte
+		it := storetypes.KVStorePrefixIterator(st, pre)
+		for ; it.Valid(); it.Next() {
+			keys = append(keys, append([]byte{}, it.Key()...))
+		}
+		it.Close()
+		for _, k := range keys {
+			st.Delete(k)
+		}
+	}
+	stage = "import"
+	mod.InitGenesis(c.Ctx, cdc, exported)
+	return exported, "", nil
 }
 
 // RawDelete removes one key from a module store of the case's branch: fault injection for states that only a
